@@ -279,7 +279,13 @@ def eval_ultra(seq, how):
     kw = {}
     if how.get("sensor"):
         kw[how["key"]] = how["sensor"]
+    if how.get("default") is not None:
+        kw["default_distance"] = how["default"]   # only used without a provider: a provider's 0 is a reading, not a missing value
     u = Ultrasonic(7, 8, distance_provider=lambda: next(it), **kw)
+    if how.get("default") is not None:
+        d0 = Ultrasonic(7, 8, default_distance=how["default"]).measure_distance()
+        if d0 != float(how["default"]):
+            return [{"bucket": "ultra-default-distance", "case": case, "expected": f"{float(how['default'])} without a provider", "observed": repr(d0)}]
     for i, v in enumerate(seq):
         try:
             g = u.measure_distance()
@@ -428,7 +434,9 @@ def run_shard(name, seed, tier, what, n):
         gaps_st = st.lists(st.lists(level, max_size=3), max_size=20)
         potv = st.lists(st.one_of(st.integers(0, 1023), st.sampled_from([0, 1023, 1024, -1, 512, 5000, True]), st.integers(-50, 1100)), min_size=1, max_size=10)
         ultv = st.lists(st.one_of(st.floats(0, 500, allow_nan=False), st.integers(0, 400), st.sampled_from([0, 0.0, -0.0, -1, -0.001, 400, 2.5, 1e6])), min_size=1, max_size=10)
-        how = st.one_of(st.just({}), st.fixed_dictionaries({"key": st.sampled_from(["sensor", "model"]), "sensor": st.sampled_from(["HC-SR04", "hc-sr04", "hc_sr04", " HC-SR04 ", "Hc_Sr04"])}))
+        how = st.one_of(st.just({}), st.fixed_dictionaries({"key": st.sampled_from(["sensor", "model"]), "sensor": st.sampled_from(["HC-SR04", "hc-sr04", "hc_sr04", " HC-SR04 ", "Hc_Sr04"])}),
+                        st.fixed_dictionaries({"default": st.sampled_from([25.0, 400, 0.0, 1, 12.5])}),
+                        st.fixed_dictionaries({"key": st.sampled_from(["sensor", "model"]), "sensor": st.just("HC-SR04"), "default": st.sampled_from([25.0, 400])}))
 
         @hseed(seed)
         @hyp_settings(n)
